@@ -1,6 +1,8 @@
 package rules
 
 import (
+	"go/token"
+	"go/types"
 	"strings"
 
 	"golang.org/x/tools/go/ssa"
@@ -50,4 +52,57 @@ func Setter(p *core.Prog, r *core.Report) {
 	}
 	r.Count("setter_params", n)
 	r.Floor("setter_params", 6)
+}
+
+// OPTIONS-KEPT — a constructor that receives the caller's options keeps them: a fresh options object is made only
+// where the caller gave none (`if opts == nil { opts = new(…) }`). Made unconditionally, the validator and the
+// children it builds run with the zero options — the recycling switches, the schema-shape rules of the Swagger
+// pass and the skip-schemata switch of the caller are silently dropped below that validator.
+func OptionsKept(p *core.Prog, r *core.Report) {
+	const rule = "OPTIONS-KEPT"
+	n := 0
+	for _, f := range p.Funcs {
+		if f.Parent() != nil || !p.InSubject(f) {
+			continue
+		}
+		var opt *ssa.Parameter
+		for _, prm := range f.Params {
+			if pt, ok := prm.Type().Underlying().(*types.Pointer); ok {
+				if nm := core.NamedOf(pt.Elem()); nm != nil && nm.Obj().Name() == "SchemaValidatorOptions" {
+					opt = prm
+				}
+			}
+		}
+		if opt == nil {
+			continue
+		}
+		core.EachInstr(f, func(i ssa.Instruction) {
+			al, ok := i.(*ssa.Alloc)
+			if !ok || !al.Heap {
+				return
+			}
+			if nm := core.NamedOf(al.Type().Underlying().(*types.Pointer).Elem()); nm == nil || nm.Obj().Name() != "SchemaValidatorOptions" {
+				return
+			}
+			n++
+			guarded := false
+			for _, cd := range core.CondsAt(al.Block()) {
+				bo, isBo := cd.Value.(*ssa.BinOp)
+				if !isBo || !((bo.X == ssa.Value(opt) && core.IsNilConst(bo.Y)) || (bo.Y == ssa.Value(opt) && core.IsNilConst(bo.X))) {
+					continue
+				}
+				if (bo.Op == token.EQL) == cd.Sense {
+					guarded = true
+				}
+			}
+			key := core.FuncName(f) + ":fresh-options"
+			if guarded {
+				r.OK(rule, key, p.Pos(al.Pos()), "fresh options only where the caller gave none")
+			} else {
+				r.Bad(rule, key, p.Pos(al.Pos()), core.FuncName(f)+" makes fresh options although it may have been given some: the caller's switches (recycling, skip-schemata, the schema-shape rules of the Swagger pass) are dropped for this validator and everything it builds")
+			}
+		})
+	}
+	r.Count("options_defaulting_sites", n)
+	r.Floor("options_defaulting_sites", 8)
 }
